@@ -246,6 +246,17 @@ m("M11c_last_member", ["C11"], [("pdf/src/object/stream.rs", "let end = if index
 m("M11d_length_any", ["C11"], [("pdf/src/parser/mod.rs", "t!(t!(r.resolve_flags(reference, ParseFlags::INTEGER, 1)).as_usize())", "t!(t!(r.resolve_flags(reference, ParseFlags::ANY, 1)).as_usize())")], expect="C11-G3", note="filter widened: a /Length pointing at a stream object makes the resolver parse that stream (recursion)")
 m("M11e_first_dropped", ["C11"], [("pdf/src/object/stream.rs", "        let start = self.inner.info.first + self.offsets[index];", "        let start = self.offsets[index];")], expect="C11-G2")
 
+# ------------------------------------------------------------------ C07
+m("M07a_no_pos_incr", ["C07"], [("pdf/src/object/types.rs", "                    if pos == page_nr {\n                        return Ok(PageRc(node));\n                    }\n                    pos += 1;", "                    if pos == page_nr {\n                        return Ok(PageRc(node));\n                    }")], expect="C07-G1", note="(changes single-level documents too) leaf not counted")
+m("M07b_depth_not_decremented", ["C07"], [("pdf/src/object/types.rs", "return tree.page_limited(resolve, page_nr - pos, depth - 1);", "return tree.page_limited(resolve, page_nr - pos, depth);")], expect="C07-REC", note="cyclic /Kids -> stack overflow")
+m("M07c_crop_field", ["C07"], [("pdf/src/object/types.rs", "                Some(b) => Ok(b),\n                None => self.media_box()\n            }", "                Some(b) => Ok(b),\n                None => self.media_box.ok_or_else(|| PdfError::MissingEntry { typ: \"Page\", field: \"MediaBox\".into() })\n            }")],
+  expect="C07-G2", note="page without own boxes, media box only on an ancestor")
+m("M07d_inherit_farthest", ["C07"], [("pdf/src/object/types.rs", "            (_, Some(t)) => return Ok(Some(t)),\n            (Some(ref p), None) => parent = p,\n            (None, None) => return Ok(None)",
+   "            (Some(ref p), _) => parent = p,\n            (None, Some(t)) => return Ok(Some(t)),\n            (None, None) => return Ok(None)")], expect="C07-G2", note="attribute taken from the root instead of the nearest ancestor")
+m("M07e_subtree_skip_no_count", ["C07"], [("pdf/src/object/types.rs", "                    pos += tree.count;\n                }", "                    pos += 1;\n                }")], expect="C07-G1", note="subtrees counted as one page: only nested trees are affected")
+m("M07f_num_pages_kids", ["C07"], [("pdf/src/file.rs", "        self.trailer.root.pages.count\n", "        self.trailer.root.pages.kids.len() as u32\n")], expect="C07-G3", note="nested trees")
+m("M07g_cropbox_from_media", ["C07"], [("pdf/src/object/types.rs", "            None => match inherit(&self.parent, |pt| pt.crop_box)? {", "            None => match inherit(&self.parent, |pt| pt.media_box)? {")], expect="C07-G2")
+
 
 def gen_patch(mu):
     files = {}
